@@ -486,6 +486,28 @@ func runC19(st *ev.Stats, h History) string {
 			st.Class("known:" + key)
 		}
 	}
+	// the state itself: every KV store of the re-imported chain equals the store of the exporting chain (a field that
+	// the export recomputes consistently survives the document round trip above but not this comparison)
+	sa, sb := n.DumpStores(), m.DumpStores()
+	seenStoreKeys := map[string]bool{}
+	for _, d := range chain.DiffStores(sa, sb) {
+		prefix := "empty"
+		if len(d.Key) > 0 {
+			prefix = fmt.Sprintf("%02x", d.Key[0])
+		}
+		key := "store:" + d.Store + ":" + prefix
+		if seenStoreKeys[key] {
+			continue
+		}
+		seenStoreKeys[key] = true
+		if !c19Stores[d.Store] {
+			continue
+		}
+		if msg := fail(key, "store entry differs after export -> import: "+trunc(d.String())); msg != "" {
+			return msg
+		}
+		st.Class("known:" + key)
+	}
 	// every query answered identically. Queries that run an EVM call or read the block time need a block context,
 	// which no freshly started application has before its first block (that is C20's listed finding, not an
 	// export/import matter): they are compared after one identical empty block on both nodes.
@@ -530,6 +552,13 @@ func runC19(st *ev.Stats, h History) string {
 	}
 	return ""
 }
+
+// c19Stores: the stores compared byte by byte between the exporting chain and the re-imported chain - the Haqq modules
+// named by the property plus accounts and bank. Stores of the upstream SDK / IBC modules keep height-indexed or
+// process-local bookkeeping (staking unbonding ids and historical info, ibc localhost client, ICA port binding) that an
+// export is not meant to carry; they are covered by the document round trip only.
+var c19Stores = map[string]bool{"acc": true, "bank": true, "evm": true, "feemarket": true, "erc20": true, "liquidvesting": true,
+	"ucdao": true, "coinomics": true, "epochs": true}
 
 func stripIdx(s string) string {
 	var b strings.Builder
